@@ -35,7 +35,7 @@ fn real_stub_table() -> Value {
     })
 }
 
-fn write_evidence(check: &dyn Check, tier: Tier, seed: u64, sum: &driver::Summary, wall: f64, n_viol: usize, known: &[String]) {
+fn write_evidence(check: &dyn Check, tier: Tier, seed: u64, sum: &driver::Summary, wall: f64, n_viol: usize, known: &[String], unreproduced: &[(u64, String)]) {
     let dir = format!("{}/evidence", verif_dir());
     let _ = std::fs::create_dir_all(&dir);
     let runs_per_hour = if wall > 0.0 { (sum.runs as f64 / wall * 3600.0) as u64 } else { 0 };
@@ -71,6 +71,7 @@ fn write_evidence(check: &dyn Check, tier: Tier, seed: u64, sum: &driver::Summar
             "components": real_stub_table(),
             "known_findings_reported": known,
             "harness_errors": sum.harness_errors.iter().map(|(s, e)| json!({"seed": s, "error": e})).collect::<Vec<_>>(),
+            "unreproduced_not_reported": unreproduced.iter().map(|(s, c)| json!({"seed": s, "class": c})).collect::<Vec<_>>(),
             "exhaustive": false
         },
         "assumptions": check.assumptions(),
@@ -121,7 +122,7 @@ fn cmd_check(args: &[String]) -> i32 {
             if !reported_known.contains(&line) {
                 reported_known.push(line);
             }
-        } else if !new_violations.iter().any(|(_, v)| v.class == viol.class) {
+        } else {
             new_violations.push((case.clone(), viol.clone()));
         }
     }
@@ -130,7 +131,39 @@ fn cmd_check(args: &[String]) -> i32 {
     }
     let mut exit = 0;
     let _ = std::fs::create_dir_all(format!("{}/replays", verif_dir()));
-    for (case, viol) in new_violations.iter().take(if std::env::var_os("SIM_ALL_VIOLATIONS").is_some() { 50 } else { 3 }) {
+    // a violation is reported only if it reproduces in a fresh process, from its recorded decisions or from its
+    // seed (the replay contract); of each class the first case that does is the one reported
+    let mut confirmed: Vec<(scenario::Case, driver::Violation)> = vec![];
+    let mut unreproduced: Vec<(u64, String)> = vec![];
+    let mut classes_in_order: Vec<String> = vec![];
+    for (_, v) in &new_violations {
+        if !classes_in_order.contains(&v.class) {
+            classes_in_order.push(v.class.clone());
+        }
+    }
+    for class in classes_in_order.iter().take(if std::env::var_os("SIM_ALL_VIOLATIONS").is_some() { 50 } else { 3 }) {
+        let mut found = false;
+        for (case, viol) in new_violations.iter().filter(|(_, v)| &v.class == class) {
+            let mut seeded = case.clone();
+            seeded.recorded = None;
+            if driver::still_fails(check.as_ref(), case, class, Duration::from_secs(90)).is_some() {
+                confirmed.push((case.clone(), viol.clone()));
+                found = true;
+                break;
+            } else if driver::still_fails(check.as_ref(), &seeded, class, Duration::from_secs(90)).is_some() {
+                confirmed.push((seeded, viol.clone()));
+                found = true;
+                break;
+            }
+            let path = format!("{}/replays/unreproduced-{}-{}-{}.json", verif_dir(), id, case.seed, driver::fnv64(&viol.class) % 100000);
+            let _ = std::fs::write(&path, serde_json::to_string_pretty(&json!({"property": id, "class": viol.class, "detail": viol.detail, "seed": case.seed, "case": case})).unwrap());
+            println!("note: unreproduced class={} seed={} detail={} (kept for diagnosis in {}; not reported: a violation must replay exactly)", viol.class, case.seed, viol.detail.chars().take(700).collect::<String>(), path);
+            unreproduced.push((case.seed, viol.class.clone()));
+        }
+        let _ = found;
+    }
+    let new_violations = confirmed;
+    for (case, viol) in new_violations.iter() {
         let (min_case, steps) = driver::minimise(check.as_ref(), case, &viol.class, Duration::from_secs(60), Duration::from_secs(if tier == Tier::Quick { 60 } else { 240 }));
         // re-evaluate the minimised case in a fresh process for the final detail text
         let r = driver::eval_case(check.as_ref(), &min_case, Duration::from_secs(60));
@@ -145,7 +178,7 @@ fn cmd_check(args: &[String]) -> i32 {
         exit = 1;
     }
     let wall_s = t0.elapsed().as_secs_f64();
-    write_evidence(check.as_ref(), tier, seed, &sum, wall_s, new_violations.len(), &reported_known);
+    write_evidence(check.as_ref(), tier, seed, &sum, wall_s, new_violations.len(), &reported_known, &unreproduced);
     println!(
         "runs={} nontrivial={} distinct={} interleavings={} faults={:?} sim_time={:.3}s wall={:.1}s harness_errors={}",
         sum.runs,
